@@ -19,7 +19,7 @@ CHECKS = {
 
 CHECKS["C16"] = dict(
     category="model_checking",
-    technique="TLA+ contract (DataModel: queries defined as scans) + cache model (DataModelImpl) checked in TLC; trace validation of exhaustive history trees on the real DataModel",
+    technique="TLA+ contract (DataModel: queries defined as scans) + cache model (DataModelImpl) checked in TLC; trace validation of exhaustive history trees on the real DataModel; a second contract (BlockView.tla: statement sequence + open range, every query an operator over a scan of the visible statements) validates operation trees on the real GIRBlockViewer",
     text="TLC proves that the cache model answers every query from the current rows for all histories at small constants (and exhibits "
          "the two pinned-code deviations as negative controls); every call of exhaustively enumerated history trees on the real "
          "DataModel (query -> mutation -> query is inside every depth>=3 tree) is judged by the contract in DataModelTrace: the pandas "
@@ -153,7 +153,7 @@ CHECKS["C11"] = dict(
 
 CHECKS["C10"] = dict(
     category="model_checking",
-    technique="GIRMachine (TLA+ GIR semantics) extended with a taint tag set per value, run by TLC on the GIR of flow-chain programs; observed (source, sink) pairs must be in lian's reported flows",
+    technique="GIRMachine (TLA+ GIR semantics) extended with a taint tag set per value, run by TLC on the GIR of flow-chain programs; observed (source, sink) pairs must be in lian's reported flows; sources by call, parameter and object_call rules (external receivers and statement sources modelled in the machine), single- and multi-file layouts",
     text="Every value of the machine carries the set of source statements it depends on (operators union tags; fields, elements, dict entries, "
          "closures, globals, parameters and returns carry them through heap and scopes). Flow-chain programs - source kind x up to two connecting "
          "constructs x sink placement, with decoys - go through the full lian pipeline; each pair observed at the designated sink argument must be "
@@ -165,7 +165,7 @@ CHECKS["C10"] = dict(
 
 CHECKS["C13"] = dict(
     category="model_checking",
-    technique="TLA+ design model of the schedulers (Scheduler.tla: frame stack, per-call-site counter, path store, cut-off rule) model-checked by TLC for every small call graph - bounds as invariants, termination as a liveness property; trace validation (SchedulerTrace.tla) of real runs on parameterised adversarial families recorded by run-time wrapping of the schedulers",
+    technique="TLA+ design model of the schedulers (Scheduler.tla: frame stack, per-call-site counter, path store, cut-off rule) model-checked by TLC for every small call graph - bounds as invariants, termination as a liveness property; trace validation (SchedulerTrace.tla) of real runs on parameterised adversarial families recorded by run-time wrapping of the schedulers; growth of the abstract state space between sizes and peak memory as further work measures",
     text="TLC proves for every assignment of callee sets to the call statements of 2-3 methods, and every visiting order, that the top-down "
          "scheduler terminates and that pushes, interruptions, decisions and stack depth stay inside explicit bounds in the number of call sites. "
          "Real runs (recursion, mutual recursion, self-application, call chains with 2-3 call sites per link, diamonds, nested loops, cyclic imports, "
